@@ -65,6 +65,39 @@ func loadImports(sys fs.FS, topPkg string, top *token) (pkgList, error) {
 			}
 		}
 	}
+	// an import without a name binds the name in the package clause of the imported
+	// package; the parser, which sees one file, could only guess it from the path
+	// (its guess stands at the position of the path, a written name stands before it)
+	for _, p := range packages {
+		for _, t := range p.Tokens {
+			if t.Symbol != "import" {
+				continue
+			}
+			var alias *token
+			for i, tk := range t.Tokens {
+				if i%2 == 0 {
+					alias = tk // names stand at the even places, each followed by its path
+					continue
+				}
+				if alias == nil || alias.Pos != tk.Pos {
+					continue
+				}
+				path, _ := strconv.Unquote(tk.Text)
+				dep := packages[path]
+				if dep == nil {
+					continue
+				}
+				if len(dep.Tokens) == 0 {
+					continue
+				}
+				clause := dep.Tokens[0]
+				if clause.Symbol != "package" || len(clause.Tokens) == 0 {
+					continue
+				}
+				alias.Text = clause.Tokens[0].Text
+			}
+		}
+	}
 	keys := maps.Keys(packages)
 	slices.Sort(keys)
 	var res []*token
